@@ -97,6 +97,9 @@ class KeyAction(object):
                     raise PGPError(warning)
                 else:
                     logging.warning(warning)
+                    # enforcement is off: the key the caller addressed does the work, not whichever
+                    # subkey the search happened to end on
+                    _key = key
 
         else:
             _key = key
